@@ -7,6 +7,14 @@ import re
 def S(s): return ('str', s)
 def CI(s): return ('ci', s)
 def RX(p): return ('rx', p)
+
+
+def _rx_min_width(pattern):
+    try:
+        import re._parser as sre_parse
+    except ImportError:       # Python < 3.11
+        import sre_parse
+    return int(sre_parse.parse(pattern).getwidth()[0])
 def BYTE(n): return ('byte', n)
 def REF(n): return ('ref', n)
 def SEQ(*xs): return ('seq', tuple(xs))
@@ -160,7 +168,8 @@ class Analysis:
         if k == 'str' or k == 'ci':
             return e[1] == ''
         if k == 'rx':
-            return re.fullmatch(e[1], '') is not None
+            # (a lookahead or an anchor can match without consuming although the pattern rejects the empty text)
+            return re.fullmatch(e[1], '') is not None or _rx_min_width(e[1]) == 0
         if k == 'byte' or k == 'fail':
             return False
         if k == 'ref':
